@@ -3,10 +3,13 @@
    any in-domain value, arbitrary trailing bytes, arbitrary prior state of the object, identical re-pack).
    and, by induction over the specification, for every nested field specification whose composites are tagged
    (TLV, any tag encoding that reads back: tag_rt_value, tag_rt_ber) or positional: C01_field_roundtrip.
-   Not covered by a theorem: composites with a bitmap of subfields, and the message level (MTI + bitmap + fields);
-   the model's m_pack/m_unpack are tied to the library by correspondence and exercised by the property oracle. *)
+   and for whole messages (MTI, auto-expanding bitmap of 1..n blocks in Binary or Hex, data elements over any such
+   field specification): C01_message_roundtrip.
+   Not covered by a theorem: composites with a bitmap of subfields, fixed (non-expanding) message bitmaps, track
+   fields, and the identical re-pack at message level (proved per field); these are tied to the library by
+   correspondence and exercised by the property oracle. *)
 From Iso Require Import Model.Base Model.Padding Model.Encoding Model.Prefix Model.Bitmap Model.Spec Model.Field Model.Message
-     Proofs.BaseLemmas Proofs.PrefixProofs Proofs.FieldProofs Proofs.CompositeProofs.
+     Proofs.BaseLemmas Proofs.PrefixProofs Proofs.FieldProofs Proofs.CompositeProofs Proofs.MessageRoundtrip.
 
 Theorem C01_prim_roundtrip : forall p st b, coherent_pspec p -> prim_in_domain p st -> prim_pack p st = Ok b ->
   forall st0 rest, prim_unpack p st0 (b ++ rest) = (st, UOk (zlen b)).
@@ -31,6 +34,15 @@ Print Assumptions C01_field_roundtrip.
 Theorem C01_fresh_shaped : forall s, coherent s -> shaped s (fresh s).
 Proof. exact fresh_shaped. Qed.
 Print Assumptions C01_fresh_shaped.
+
+(* whole messages: unpacking the packed bytes into any message object of the specification (fresh or used) succeeds,
+   consumes exactly the packed bytes whatever follows, and yields the same MTI, the same bitmap, the same set of
+   populated ids and, recursively, the same content for every data element, each of which re-packs identically *)
+Theorem C01_message_roundtrip : forall S m m' b, msg_coherent S -> msg_in_dom S m -> m_pack S m = (m', Ok b) ->
+  forall m0 rest, msg_shaped S m0 ->
+    exists m2, m_unpack S m0 (b ++ rest) = (m2, UOk (zlen b)) /\ msg_equiv S m' m2.
+Proof. exact message_roundtrip. Qed.
+Print Assumptions C01_message_roundtrip.
 
 (* non-vacuity, and instances of the composite / message level by computation *)
 Definition p_ex : pspec := {| ps_kind := KString; ps_enc := EncBCD; ps_pref := PVar PfBinary 5; ps_len := 300; ps_pad := PadNone; ps_packer := PkDefault |}.
